@@ -507,6 +507,7 @@ fn maintain(rng: &mut Rng, vs: &mut Variants, work: &str, run: u64, gen_no: &mut
                         DbX::File(d) => DbX::File(d.copy(&new_path)?),
                         DbX::Map(d) => DbX::Map(d.copy(&new_path)?),
                         DbX::Any(d) => DbX::Any(d.copy(&new_path)?),
+                        DbX::Faulty(d) => DbX::Faulty(d.copy(&new_path)?),
                     };
                     let old = std::mem::replace(db, copy);
                     drop(old);
